@@ -166,6 +166,8 @@ func (proj *Project) saveIndex() error {
 		return err
 	}
 	defer f.Close()
+	verifPoint("index.after-create", "")
+	defer verifPoint("index.after-write", "")
 
 	index := index{
 		Flags:   make([]*Flag, 0, len(proj.args)),
